@@ -137,6 +137,15 @@ theorem obsAt_congr {st st' : SState} (h : st'.observed = st.observed) (t r : Na
 theorem obsWF_congr {st st' : SState} (h : st'.observed = st.observed) (hw : ObsWF st) : ObsWF st' := by
   unfold ObsWF at *; rw [h]; exact hw
 
+theorem markFailed_pending (st : SState) (t : Nat) : (markFailed st t).pending = st.pending := by
+  unfold markFailed; split <;> rfl
+
+theorem markFailed_observed (st : SState) (t : Nat) : (markFailed st t).observed = st.observed := by
+  unfold markFailed; split <;> rfl
+
+theorem markFailed_mode (st : SState) (t : Nat) : (markFailed st t).mode = st.mode := by
+  unfold markFailed; split <;> rfl
+
 /-! ### `stepCS` -/
 
 theorem applyActs_single (st : SState) (a : SAct) : applyActs st [a] = applyAct st a := by
@@ -235,6 +244,39 @@ theorem fresh_level {y : SysS} (h : CInvS y) {t id : Nat} {sl : SlotInRung}
       change y.sched.lvl j k ≤ y.sched.prevLvl j sl.rungIndex at this
       omega
     · omega
+
+/-- the invariant reads the searcher state through `pending`, `observed` and `mode` only (not
+through `failed`) -/
+theorem cinvS_st_congr {sch : Sched} {st st' : SState} {last : List (Nat × Nat)}
+    (h : CInvS { sched := sch, st := st, last := last }) (hp : st'.pending = st.pending)
+    (ho : st'.observed = st.observed) (hm : st'.mode = st.mode) :
+    CInvS { sched := sch, st := st', last := last } := by
+  have hlab : ∀ t r, st'.isLabeled t r = st.isLabeled t r := by
+    intro t r; unfold SState.isLabeled; rw [ho]
+  have hobs : ∀ t r, obsAt st' t r = obsAt st t r := fun t r => obsAt_congr ho t r
+  have hcrit : ∀ x, st'.crit x = st.crit x := fun x => crit_of_mode hm x
+  refine ⟨h.inv, by change st'.pending.Nodup; rw [hp]; exact h.pnd, obsWF_congr ho h.owf, ?_, ?_, h.lastOk, ?_, ?_⟩
+  · intro p hpp
+    change p ∈ st'.pending at hpp
+    rw [hp] at hpp
+    exact h.pend p hpp
+  · intro t id sl hl hs
+    change (t, sl.level) ∈ st'.pending
+    rw [hp]; exact h.conv t id sl hl hs
+  · intro t r hl
+    change st'.isLabeled t r = true at hl
+    rw [hlab] at hl
+    rcases h.obs t r hl with ⟨j, k, p, m, hs, a1, a2, a3, a4⟩ | h2
+    · refine Or.inl ⟨j, k, p, m, hs, a1, a2, ?_, a4⟩
+      intro hrl
+      obtain ⟨x, hx, ho'⟩ := a3 hrl
+      refine ⟨x, hx, ?_⟩
+      change obsAt st' t r = some (st'.crit x)
+      rw [hobs, hcrit]; exact ho'
+    · exact Or.inr h2
+  · intro t j k p x hs
+    change obsAt st' t (sch.lvl j k) = some (st'.crit x)
+    rw [hobs, hcrit]; exact h.fin t j k p x hs
 
 /-- a trial which is not registered has no pending evaluation -/
 theorem no_pending_of_not_running {y : SysS} (h : CInvS y) {t : Nat} (hn : alookup t y.sched.pending = none) :
